@@ -136,7 +136,7 @@ func dedupDriver(a *Args) {
 				return
 			}
 		}
-		idsUsed += distinct
+		idsUsed += distinct + 1
 		hx.Reset(name, sig)
 		want := map[string]bool{}
 		for _, batch := range hist {
@@ -177,6 +177,10 @@ func dedupDriver(a *Args) {
 			fp.Push(again)
 			time.Sleep(30 * time.Millisecond)
 		}
+		// a last batch with one new ID: the agent works its lists off one after the other, so when this ID has been
+		// served every earlier list has been processed - nothing of this history is logged into the next one
+		want[name+"-end"] = true
+		fp.Push([]string{name + "-end"})
 		// wait until every listed ID was served once, then a settle time for stray duplicates. (An ID that
 		// is never served is a fact the trace shows; after three such histories the remaining ones wait
 		// only briefly, so that a broken agent does not turn the run into hours of waiting.)
@@ -276,10 +280,12 @@ func dedupDriver(a *Args) {
 			agent.Kill()
 			agent = nil
 		}
+		played := 0
 		for hi, h := range cases.Histories {
-			if hi%7 != ci%7 || len(h) == 0 {
+			if hi%7 != ci%7 || len(h) == 0 || played >= 6 {
 				continue
 			}
+			played++
 			hist := make([][]string, len(h))
 			distinct := map[string]bool{}
 			for i, batch := range h {
